@@ -313,18 +313,18 @@ def judge(run, r, w, jres, have_checker):
     if json.dumps(model_site) != json.dumps(ref):
         obj = dict(where, what="overwrite_diff", model=m, reference=ref, differences=diffs[:6])
         run.broken.append({"obligation": "overwriteDiff vs by-value walk", "detail": obj})
-        run.violation(obj, signature="C04:model-disagrees:overwrite_diff", no_input=True)
+        c3.report(run, obj, signature="C04:model-disagrees:overwrite_diff", no_input=True)
 
     # (a) the code against the specification (judged by the independent walk)
     if not injected:
         if ref != "none":
-            run.violation(dict(where, what="program changed although no error was reported", differences=diffs[:6]),
+            c3.report(run, dict(where, what="program changed although no error was reported", differences=diffs[:6]),
                           signature="C04:not-injected:program-changed")
         if text_changed:
-            run.violation(dict(where, what="translation changed although no error was reported"),
+            c3.report(run, dict(where, what="translation changed although no error was reported"),
                           signature="C04:not-injected:translation-changed")
         if ow.get("error_injected") is not None:
-            run.violation(dict(where, what="message without is_transformed", message=ow.get("error_injected")),
+            c3.report(run, dict(where, what="message without is_transformed", message=ow.get("error_injected")),
                           signature="C04:not-injected:message")
         if rec is not None:
             run.tally("not_injected_reason", "no-irrelevant-type" if rec.get("find_calls") and rec.get("new") is None
@@ -333,7 +333,7 @@ def judge(run, r, w, jres, have_checker):
             run.tally("not_injected_reason", "no-candidate-method")
         return
     if ref is None or ref == "none":
-        run.violation(dict(where, what="injected error but the program does not differ in exactly one declared type",
+        c3.report(run, dict(where, what="injected error but the program does not differ in exactly one declared type",
                            differences=diffs[:8], model=m),
                       signature="C04:injected:%s" % ("no-difference" if ref == "none" else "not-one-site"))
         return
@@ -351,12 +351,12 @@ def judge(run, r, w, jres, have_checker):
     if m["old_str"] != rec["old_str"] or m["new_str"] != rec["new_str"]:
         obj = dict(where, what="types at the site differ from the types the mutation replaced/produced",
                    diff=[m["old_str"], m["new_str"]], recorded=[rec["old_str"], rec["new_str"]])
-        run.violation(obj, signature="C04:injected:site-types-differ-from-reported-types")
+        c3.report(run, obj, signature="C04:injected:site-types-differ-from-reported-types")
     a_rel = w["answers"][2]["r"]
     if a_rel["rel"] != rel_impl:
         obj = dict(where, what="unrelated", model=a_rel["rel"], impl=rel_impl, old=rec["old_str"], new=rec["new_str"])
         run.broken.append({"obligation": "correspondence mut.unrelated", "detail": obj})
-        run.violation(obj, signature="C04:model-disagrees:unrelated", no_input=True)
+        c3.report(run, obj, signature="C04:model-disagrees:unrelated", no_input=True)
     if any(x is not False for x in rel_impl) or not a_rel["unrelated"] or not m["rel"]["unrelated"]:
         # shape: which of the four relations hold (s = subtype, a = assignable only)
         if rel_impl[0] is True or rel_impl[1] is True:
@@ -366,7 +366,7 @@ def judge(run, r, w, jres, have_checker):
         else:
             shape = "relation-test-raises"
         run.tally("related", "%s:%s:%s->%s" % (shape, site[1][0], rec["old_str"], rec["new_str"]))
-        run.violation(dict(where, what="the new type is related to the replaced one", old=rec["old_str"],
+        c3.report(run, dict(where, what="the new type is related to the replaced one", old=rec["old_str"],
                            new=rec["new_str"], relations_impl=rel_impl, relations_model=rel_model,
                            order="[old<:new, new<:old, old assignable-to new, new assignable-to old]"),
                       signature="C04:%s:related:%s" % (lang, shape))
@@ -379,13 +379,13 @@ def judge(run, r, w, jres, have_checker):
         expect = "%s expected but %s found in node %s" % (rec["old_str"], rec["new_str"], rec["chosen"]["id"])
         if msg == expect:
             run.broken.append({"obligation": "correspondence mut.message (pyStr)", "detail": obj})
-            run.violation(obj, signature="C04:model-disagrees:message", no_input=True)
+            c3.report(run, obj, signature="C04:model-disagrees:message", no_input=True)
         else:
-            run.violation(obj, signature="C04:injected:message-does-not-name-old-new-node")
+            c3.report(run, obj, signature="C04:injected:message-does-not-name-old-new-node")
     nm = site_name(er["export"], site)
     nid = rec["chosen"]["id"]
     if nm is None or not isinstance(nid, str) or nid.rsplit("/", 1)[-1] != nm:
-        run.violation(dict(where, what="node id in the message does not name the mutated node", node_id=nid,
+        c3.report(run, dict(where, what="node id in the message does not name the mutated node", node_id=nid,
                            name_at_site=nm, site=site), signature="C04:injected:message-names-other-node")
     # (d) rejected
     if have_checker:
@@ -396,7 +396,7 @@ def judge(run, r, w, jres, have_checker):
             ok_o, ok_e = c3.wt_ok(a_o), c3.wt_ok(a_e)
             run.tally("check.wt", "%s/%s" % ("input-ok" if ok_e else "input-rejected", "mutant-ok" if ok_o else "mutant-rejected"))
             if ok_e and ok_o:
-                run.violation(dict(where, what="mutant accepted by check.wt", site=site, old=rec["old_str"], new=rec["new_str"]),
+                c3.report(run, dict(where, what="mutant accepted by check.wt", site=site, old=rec["old_str"], new=rec["new_str"]),
                               signature="C04:check.wt:" + accepted_shape(lang, site, m, True))
     if jres is not None:
         (rc_e, out_e), (rc_o, out_o) = jres
@@ -408,7 +408,7 @@ def judge(run, r, w, jres, have_checker):
             sig = accepted_shape(lang, site, m, text_changed, er["export"])
             run.tally("accepted_shapes", sig)
             run.tally("accepted_detail", "%s:%s->%s" % (site[1][0], rec["old_str"], rec["new_str"]))
-            run.violation(dict(where, what="mutant accepted by javac", site=site, old=rec["old_str"], new=rec["new_str"],
+            c3.report(run, dict(where, what="mutant accepted by javac", site=site, old=rec["old_str"], new=rec["new_str"],
                                message=msg), signature="C04:" + sig)
 
 
@@ -464,6 +464,8 @@ def run_all(run, specs, budget_s, threads=3, batch_size=8, batch_wait=12):
         drain(0)
     run.cov["programs"] = n
     run.log("%d programs checked at %.0fs" % (n, time.time() - t0))
+    if not run.cov.get("pipeline", {}).get("ok"):
+        raise common.HarnessError("no program went through the pipeline within the budget (%d results)" % n)
 
 
 def str_stream(run):
@@ -487,11 +489,15 @@ def str_stream(run):
                 except TypeError:
                     pass
         ts.append(fac.get_void_type())
-    try:
-        pool = gen_types.random_types(run.rng, 60)
-    except Exception:  # noqa: BLE001  (helper of another property: optional)
-        pool = []
-    ts += pool
+    # types over random completed class tables: simple classes, type constructors, instantiations
+    # (with wildcards), type parameters
+    for _ in range(12):
+        tb = gen_types.Table(run.rng)
+        ts += list(tb.simple) + list(tb.cons)
+        for c in tb.cons:
+            ts += list(c.type_parameters)
+        for _ in range(6):
+            ts.append(tb.ground(depth=2))
     tt = export.TypeTable()
     idx = [tt.add(t) for t in ts]
     a = common.run_driver([{"op": "mut.str", "tt": tt.entries, "ts": idx, "bnames": tables()["bnames"]}])[0]
@@ -505,7 +511,7 @@ def str_stream(run):
     if bad:
         obj = {"what": "pyStr differs from __str__", "pairs": bad[:5]}
         run.broken.append({"obligation": "correspondence mut.str", "detail": obj})
-        run.violation(obj, signature="C04:model-disagrees:str", no_input=True)
+        c3.report(run, obj, signature="C04:model-disagrees:str", no_input=True)
 
 
 def check(run):
